@@ -647,7 +647,20 @@ func c06Leapers(e *c06env) {
 	king := [][2]int{{1, 0}, {-1, 0}, {0, 1}, {0, -1}, {1, 1}, {1, -1}, {-1, 1}, {-1, -1}}
 	knight := [][2]int{{1, 2}, {2, 1}, {-1, 2}, {-2, 1}, {1, -2}, {2, -1}, {-1, -2}, {-2, -1}}
 	for _, lp := range []leaper{{"king", king}, {"knight", knight}} {
-		ti := findTableInit(c, lp.table)
+		// the table by role: the package-level array the accessor function indexes (whatever it is called)
+		global := lp.table
+		if acc := c.find("pkg/board", "", map[string]string{"king": "KingAttackboard", "knight": "KnightAttackboard"}[lp.table]); acc != nil {
+			for _, b := range acc.Blocks {
+				for _, ins := range b.Instrs {
+					if ia, ok := ins.(*ssa.IndexAddr); ok {
+						if g, ok := ia.X.(*ssa.Global); ok {
+							global = g.Name()
+						}
+					}
+				}
+			}
+		}
+		ti := findTableInit(c, global)
 		if ti == nil || ti.sqPhi == nil {
 			r.Undecided("R06-leapers", "board."+lp.table+" initialiser", "", "", "cannot locate the loop that fills the table")
 			continue
@@ -671,7 +684,7 @@ func c06Leapers(e *c06env) {
 			var val uint64
 			found := false
 			for _, ef := range outs[0].St.Effects {
-				if ef.Kind == "store" && strings.HasSuffix(vstrOf(ef.Args[0]), fmt.Sprintf(".%s,%d)", lp.table, sq)) {
+				if ef.Kind == "store" && strings.HasSuffix(vstrOf(ef.Args[0]), fmt.Sprintf(".%s,%d)", global, sq)) {
 					val, found = constU64(ef.Args[1])
 				}
 			}
